@@ -20,6 +20,22 @@ theorem renderSegs_joinS (sep : Bytes) (xs : List (List Seg)) :
     | nil => simp [joinS, joinB]
     | cons y ys => simp [joinS, joinB, ih]
 
+theorem render_jargSegs (a : JArg) : renderSegs (jargSegs a) = jargText a := by
+  cases a <;> simp [jargSegs, jargText]
+
+theorem render_jsonGetSegs (path : List JArg) : renderSegs (jsonGetSegs path) = jsonGetText path := by
+  simp [jsonGetSegs, jsonGetText, renderSegs_joinS, List.map_map, Function.comp_def, render_jargSegs]
+
+theorem render_jsonMapSegs (ps : List (Bytes × List JArg)) : renderSegs (jsonMapSegs ps) = jsonMapText ps := by
+  simp [jsonMapSegs, jsonMapText, renderSegs_joinS, List.map_map, Function.comp_def, render_jsonGetSegs]
+
+theorem render_regexMapSegs (labels : List Bytes) (re : Bytes) (id : Nat) :
+    renderSegs (regexMapSegs labels re id) = regexMapText labels re id := by
+  simp [regexMapSegs, regexMapText, regexMid, regexPost, renderSegs_joinS, List.map_map, Function.comp_def]
+
+theorem render_dropClauseSegs (p : Bytes × Bytes) : renderSegs (dropClauseSegs p) = dropClauseText p := by
+  by_cases h : p.2.isEmpty <;> simp [dropClauseSegs, dropClauseText, h]
+
 mutual
 theorem render_segsExpr : ∀ e : Expr, renderSegs (segsExpr e) = renderExpr e
   | .raw s => by simp [segsExpr, renderExpr]
@@ -58,6 +74,11 @@ theorem render_segsExpr : ∀ e : Expr, renderSegs (segsExpr e) = renderExpr e
   | .topkSlice isTop hasLabels k => by simp [segsExpr, renderExpr, topkText]
   | .arrayJoinFrom src arr => by simp [segsExpr, renderExpr, render_segsExpr src, render_segsExpr arr]
   | .fixedLit units scale => by simp [segsExpr, renderExpr]
+  | .jsonMap ps => by simp [segsExpr, renderExpr, render_jsonMapSegs]
+  | .regexMap labels re id => by simp [segsExpr, renderExpr, render_regexMapSegs]
+  | .mapDrop m ps => by
+    simp [segsExpr, renderExpr, renderSegs_joinS, render_segsExpr m, List.map_map, Function.comp_def, render_dropClauseSegs]
+  | .labelsFp => by simp [segsExpr, renderExpr]
 theorem render_segsSels : ∀ ss : List Sel, (segsSels ss).map renderSegs = renderSels ss
   | [] => by simp [segsSels, renderSels]
   | s :: ss => by simp [segsSels, renderSels, render_segsSel s, render_segsSels ss]
